@@ -308,7 +308,8 @@ def r10_6(ctx) -> None:
         if isinstance(g, (ast.ListComp, ast.GeneratorExp)) and isinstance(g.elt, ast.Compare) and isinstance(g.elt.ops[0], ast.In):
             itx = resolve_all(eng, a, g.generators[0].iter)
             OPTA = f"{a.self_name}.options.get('aud')"
-            if itx == sorted([f"{OPTA}.get('values')", f"[{OPTA}.get('value')]"]) and norm(g.elt.left) == norm(g.generators[0].target):
+            need_ = {f"{OPTA}.get('values')", f"[{OPTA}.get('value')]"}
+            if need_ <= set(itx) and set(itx) <= need_ | {"None", "[]"} and norm(g.elt.left) == norm(g.generators[0].target):
                 bad = succ_by_label(cfg, t, "false")
                 if not can_reach_exit(cfg, bad) and _raise_is(cfg, bad, "InvalidClaimError", "aud"):
                     lst = norm(g.elt.comparators[0])
